@@ -243,9 +243,19 @@ def check_override(case, ctx):
     family, base, new, subset, method = case["family"], case["base"], case["new"], case["subset"], case["method"]
     names = F.param_names(family)
     merged = dict(base)
+    passed = {}
     for n in subset:
         merged[n] = new[n]
-    ctx.cls(f"{family}/{method}/{'+'.join(subset)}", f"passing={case['passing']}")
+        passed[n] = new[n]
+    if case.get("int_typed"):
+        # integer-typed explicit values (lambda_=2, kappa=np.int64(3), mu=0): same meaning as the float
+        for i, n in enumerate(subset):
+            iv = int(round(new[n]))
+            if n not in ("mu", "loc", "gamma") or family in ("LogNormalNormFit",):
+                iv = max(1, iv)
+            merged[n] = float(iv)
+            passed[n] = iv if i % 2 == 0 else np.int64(iv)
+    ctx.cls(f"{family}/{method}/{'+'.join(subset)}", f"passing={case['passing']}", f"int_typed={bool(case.get('int_typed'))}")
     qs, x = xs_for(family, merged, case["qs"])
     fin = np.isfinite(x)
     qs, x = qs[fin], x[fin]
@@ -258,9 +268,9 @@ def check_override(case, ctx):
     d_new = build.dist(family, merged)
     expected = np.asarray(getattr(d_new, method)(arg), dtype=float)
     if case["passing"] == "kw":
-        a, k = (), {n: merged[n] for n in subset}
+        a, k = (), {n: passed[n] for n in subset}
     else:
-        a, k = tuple(merged[n] if n in subset else None for n in names), {}
+        a, k = tuple(passed[n] if n in subset else None for n in names), {}
     try:
         got = np.asarray(getattr(d_base, method)(arg, *a, **k), dtype=float)
     except RuntimeError as e:
@@ -298,9 +308,9 @@ def strat_override(tier):
     def mk(family):
         names = F.param_names(family)
         return st.builds(
-            lambda base, new, subset, method, qs, passing, from_default: dict(
+            lambda base, new, subset, method, qs, passing, from_default, int_typed: dict(
                 family=family, base=base, new=new, subset=sorted(subset, key=names.index), method=method, qs=qs,
-                passing=passing, from_default=from_default,
+                passing=passing, from_default=from_default, int_typed=int_typed,
             ),
             fam.WIDE[family](),
             fam.WIDE[family](),
@@ -313,6 +323,7 @@ def strat_override(tier):
             QS,
             st.sampled_from(["kw", "kw", "pos"]),
             st.booleans(),
+            st.sampled_from([False, False, True]),
         )
 
     return st.sampled_from(fam.ALL).flatmap(mk)
